@@ -35,6 +35,7 @@ Relabel ==
            /\ Clause("C01", "optimal", tc <= m + r.slack)
            /\ Clause("C01", "not_below_minimum", tc >= m)       \* sanity of the oracle itself
            /\ (r.bf => Clause("C01", "oracle_agree", bf = dp))
+           /\ Clause("C19", "cost_table_and_switching_cost_unchanged", r.args_same)
            /\ labels' = r.labels /\ reported' = r.reported
     /\ st' = "returned" /\ UNCHANGED tid
 
